@@ -48,6 +48,17 @@ impl DiffKind {
     }
 }
 
+/// `String::truncate` that never splits a character.
+pub fn safe_truncate(s: &mut String, max: usize) {
+    if s.len() > max {
+        let mut e = max;
+        while !s.is_char_boundary(e) {
+            e -= 1;
+        }
+        s.truncate(e);
+    }
+}
+
 fn short(v: &Value) -> String {
     let s = v.to_string();
     if s.len() > 120 {
@@ -157,7 +168,7 @@ where
         Err(p) => return Outcome::Panic { stage: "validate", info: p, bytes: None },
         Ok(Err(e)) => {
             let mut s = format!("{:?}", e);
-            s.truncate(200);
+            crate::oracle::safe_truncate(&mut s, 200);
             return Outcome::ValidateRejected(s);
         }
         Ok(Ok(())) => {}
@@ -167,7 +178,7 @@ where
         Ok(Err(Error::PackingFailed(_))) => return Outcome::PackingFailed,
         Ok(Err(Error::ValidationFailed(e))) => {
             let mut s = format!("{:?}", e);
-            s.truncate(200);
+            crate::oracle::safe_truncate(&mut s, 200);
             return Outcome::ValidateRejected(s);
         }
         Ok(Ok(b)) => b,
@@ -217,7 +228,7 @@ where
         }
         if let Ok(Err(e)) = guard(|| v2.validate()) {
             let mut s = format!("{:?}", e);
-            s.truncate(200);
+            crate::oracle::safe_truncate(&mut s, 200);
             reread_invalid = Some(s);
         }
     }
@@ -226,7 +237,7 @@ where
         Err(p) => return Outcome::Panic { stage: "redump", info: p, bytes: Some(bytes) },
         Ok(Err(e)) => {
             let mut s = format!("{}", e);
-            s.truncate(200);
+            crate::oracle::safe_truncate(&mut s, 200);
             Err(s)
         }
         Ok(Ok(b2)) => {
